@@ -78,7 +78,13 @@ def _arr(case):
         a = (np.array(case['data'], dtype=np.float64) / case.get('scale', 1)).astype(dt)
     else:
         a = a.astype(dt)
-    return a.reshape(case['shape'])
+    a = a.reshape(case['shape'])
+    if dt.kind == 'f' and case.get('negzero'):
+        # signed zeros: -0.0 == +0.0, so occurrences and ranks must not depend on the sign bit of a zero
+        for i in case['negzero']:
+            if a.flat[i] == 0:
+                a.flat[i] = -0.0
+    return a
 
 
 def _line(case):
@@ -116,6 +122,10 @@ def _call(case, Al):
         B = (np.array(case['bc'], dtype=np.float64) / case['scale']).astype(dt).reshape(case['bshape'])
     else:
         B = np.array(case['bc'], dtype=object).astype(dt).reshape(case['bshape']) if len(case['bc']) else np.zeros(case['bshape'], dt)
+    if dt.kind == 'f' and case.get('bnegzero'):
+        for i in case['bnegzero']:
+            if B.flat[i] == 0:
+                B.flat[i] = -0.0
     B = gen.relayout(B, case.get('blayout', 'C')) if B.size else B
     with warnings.catch_warnings():
         warnings.simplefilter('ignore')
@@ -493,6 +503,11 @@ def _find_cases(rng, tier):
                                 layout=rng.choice(gen.LAYOUTS), blayout=rng.choice(['C', 'C', 'F', 'strided']))
                     if variant == 2:
                         base['values'] = 'huge'
+                    if dtype in ('float32', 'float64') and rng.random() < 0.7:
+                        # zeros of either sign in image and template (equal as values, different as bit patterns)
+                        base['negzero'] = [i for i, v in enumerate(data) if v == 0 and rng.random() < 0.5]
+                        base['bnegzero'] = [i for i, v in enumerate(T.ravel().tolist()) if v == 0 and rng.random() < 0.5]
+                        base['values'] = base.get('values', 'small') + '+signed-zeros'
                     out.append(dict(base, bc=[int(v) for v in T.ravel().tolist()], tag=tag))
                     if rng.random() < 0.25:
                         P = T.copy()
